@@ -14,9 +14,9 @@ import vcommon as vc
 LEVEL = "exploration"
 
 
-def run_engine(n, stall=20, timeout=3600):
+def run_engine(n, stall=20, timeout=3600, alphabet="dangling", max_supers=2):
     cmd = [vc.VDRIVE_BIN, "typemap", "--n", str(n), "--threads", str(vc.NPROC),
-           "--stall-secs", str(stall)]
+           "--stall-secs", str(stall), "--alphabet", alphabet, "--max-supers", str(max_supers)]
     try:
         p = subprocess.run(cmd, stdout=subprocess.PIPE, stderr=subprocess.PIPE, text=True,
                            timeout=timeout)
@@ -40,25 +40,31 @@ def main(tier, t0):
     total_queries = 0
     samples = []
     exhaustive = True
-    for n in sizes:
-        out, p = run_engine(n)
+    # (N, alphabet, supers per class): the first alphabet has unresolvable and non-class supers, the second
+    # marks every edge public, protected or private (only public edges belong to the class graph)
+    runs = [(n, "dangling", 2) for n in sizes] + \
+        ([(2, "access", 2), (3, "access", 1)] if tier == "quick" else [(2, "access", 2), (3, "access", 2)]) + \
+        [(2, "modules", 2), (3, "modules", 2)]
+    for n, alphabet, ms in runs:
+        out, p = run_engine(n, alphabet=alphabet, max_supers=ms)
+        label = str(n) if alphabet == "dangling" else f"{n}/{alphabet}/supers<={ms}"
         if out.get("crash"):
             what = "stack-overflow" if "overflowed its stack" in out["stderr_tail"] else f"rc={out['returncode']}"
             tally.violation(f"crash:lookup-brought-the-process-down:{what}",
                             {"n": n, "returncode": out["returncode"], "stderr_tail": out["stderr_tail"]})
-            per_n[str(n)] = {"crash": True}
+            per_n[label] = {"crash": True}
             exhaustive = False
             continue
         if out.get("hang"):
             tally.violation("hang:lookup-does-not-terminate", {"n": n, "witness": out["witness"]})
-            per_n[str(n)] = {"hang": True}
+            per_n[label] = {"hang": True}
             exhaustive = False
             continue
         if out.get("crashed_threads"):
             # a panic inside a lookup: report as violation with the stderr tail as witness
             tally.violation("panic:lookup-panicked", {"n": n, "stderr": p.stderr[-1500:]})
             exhaustive = False
-        per_n[str(n)] = {k: out[k] for k in ("graphs", "graphs_total", "cases", "queries",
+        per_n[label] = {k: out[k] for k in ("graphs", "graphs_total", "cases", "queries",
                                                "cyclic_graphs", "dangling_graphs",
                                                "multi_super_graphs", "super_lists", "outcomes")}
         if out["graphs"] != out["graphs_total"]:
@@ -68,7 +74,7 @@ def main(tier, t0):
         samples += out["samples"][:2]
         for v in out["violations"]:
             tally.viol_counts[v["signature"]] = tally.viol_counts.get(v["signature"], 0) + v["count"] - 1
-            tally.violation(v["signature"], {"n": n, "witness": v["witness"], "count": v["count"]})
+            tally.violation(v["signature"], {"n": n, "alphabet": alphabet, "max_supers": ms, "witness": v["witness"], "count": v["count"]})
     outcomes = set()
     for d in per_n.values():
         outcomes |= set(d.get("outcomes", {}).keys())
@@ -76,7 +82,10 @@ def main(tier, t0):
         "evaluations": total_queries,
         "distinct_nontrivial": total_cases,
         "rule": "every (graph, declaration placement) pair is a distinct case; graphs = all ordered "
-                "super lists of length<=2 over {C0..C(N-1), Missing, En}^N; each case issues "
+                "super lists of length<=2 over {C0..C(N-1), Missing, En}^N, over {public, protected, "
+                "private} x {C0..C(N-1)}, and over classes living in one module each x every import relation "
+                "between the modules (a super name resolves in the declaring class's module and its imports "
+                "only); each case issues "
                 "is_derived_from for all pairs, property/method/nested-enum/variant lookups and "
                 "common_base_class for all pairs; evaluations = individual queries judged",
         "exhaustive": exhaustive,
@@ -101,7 +110,7 @@ def replay(path):
     with open(path) as f:
         r = json.load(f)
     n = r["case"].get("n", 3)
-    out, _ = run_engine(n)
+    out, _ = run_engine(n, alphabet=r["case"].get("alphabet", "dangling"), max_supers=r["case"].get("max_supers", 2))
     sigs = {v["signature"]: v for v in out.get("violations", [])}
     if out.get("crash"):
         sigs[r["signature"]] = out
